@@ -58,7 +58,7 @@ def class_body(text, name):
 
 
 def generate(repo):
-    err = None; bases = []; scalars = []
+    err = None; bases = []; scalars = []; handler = (False, False, False, False)
     try:
         inc = os.path.join(repo, "include")
         headers = {p: strip_comments(open(p).read()) for p in glob.glob(inc + "/**/*.hpp", recursive=True)}
@@ -85,6 +85,27 @@ def generate(repo):
             scalars.append((name, m.group(3) is not None, read_by_contact))
         if not bases or not scalars:
             raise ValueError("nothing found")
+        # ---- the shape of parallel_exception_handler (include/utils.hpp): four facts the handler model of Schedule.v assumes
+        ut = headers[os.path.join(inc, "utils.hpp")]
+        mh = re.search(r"inline\s+void\s+parallel_exception_handler\s*\(", ut)
+        if not mh:
+            raise ValueError("parallel_exception_handler not found")
+        i0 = ut.index("{", mh.end()); depth = 0
+        for j0 in range(i0, len(ut)):
+            depth += ut[j0] == "{"; depth -= ut[j0] == "}"
+            if depth == 0:
+                break
+        hb = re.sub(r"\s+", "", ut[i0 + 1:j0])
+        pragma = re.search(r"#pragmaompparallelfor(.*?)for\(", hb)
+        handler = (
+            # one exception slot, declared before the parallel region, and not made private / lastprivate / firstprivate by the pragma
+            hb.startswith("std::exception_ptre_ptr;#pragmaompparallelfor") and pragma is not None and "private" not in pragma.group(1) and "reduction" not in pragma.group(1),
+            # every task runs inside try, and the catch-all stores the current exception inside a critical section
+            "try{func(vec[i]);}catch(...){#pragmaompcritical{e_ptr=std::current_exception();}}" in hb,
+            # the loop visits every element once and nothing leaves it early
+            "for(size_ti=0;i<vec.size();i++){try{" in hb and "break" not in hb and hb.count("return") == 0,
+            # after the loop: rethrown iff something was stored
+            hb.endswith("if(e_ptr)std::rethrow_exception(e_ptr);"))
     except Exception as ex:
         err = str(ex); bases = []; scalars = []
     b = lambda x: "true" if x else "false"
@@ -97,6 +118,8 @@ def generate(repo):
     lines.append("Definition owned_bases : list (string * bool * bool) := [" + "; ".join('("%s", %s, %s)' % (x, b(d), b(v)) for x, d, v in bases) + "].")
     lines.append("(* scalar member of node (active configuration), has a default member initialiser, is read by the contact phase *)")
     lines.append("Definition node_scalars : list (string * bool * bool) := [" + "; ".join('("%s", %s, %s)' % (n, b(i), b(r)) for n, i, r in scalars) + "].")
+    lines.append("(* parallel_exception_handler: (one shared exception slot declared before the region, every task inside try with a catch-all that stores under a critical section, the loop visits every element and nothing leaves it early, rethrown after the loop iff a slot was stored) *)")
+    lines.append("Definition handler_shape : bool * bool * bool * bool := (%s, %s, %s, %s)." % tuple(b(x) for x in handler))
     return "\n".join(lines) + "\n", err, bases, scalars
 
 
